@@ -50,6 +50,8 @@ def step (_ : Unit) (j : Json) : Except String (Unit × Drv.Out) := do
   let evs ← asArr (← fld j "events")
   let mut o : Drv.Out := { nontrivial := true }
   o := o.tag s!"mode.{mode}"
+  if fldD j "race" == .bool true then
+    o := o.mon "promReality" "data-race" "the Go race detector reported a data race on the middleware's shared state in this run"
   let mut p : Prom := {}
   let mut hist : List PStep := []
   let mut idx := 0
